@@ -158,12 +158,12 @@ PROPERTIES = {
     },
     'C03': {
         'units': [mainspec.MainMaps, sm.RFCalcKick, sm.RFKickMapLinearCtor, sm.RFKickMapSinCtor, sm.DriftMapCtor, sm.KickMapCtor, sm.UpdateSM, sm.KickMapApply,
-                  sm.CalcCoefficiants, ps.RulerCtor, mainspec.MainConfig, mainspec.MainPhysics, mainspec.MainUnits, mainspec.MainWiring, mainspec.MapDispatch, io.ProgramOptionsGetters],
+                  sm.CalcCoefficiants, ps.RulerCtor, mainspec.MainConfig, mainspec.MainPhysics, mainspec.MainGrid, mainspec.MainUnits, mainspec.MainWiring, mainspec.MapDispatch, io.ProgramOptionsGetters],
         'lemmas': [sm.lemmas_c03, sm.lemmas_weights],
         'level': 'other',
         'claim': 'one-step law: the RF map displaces row x by tan(angle)*(zerobin-x) cells (sinusoidal: the stated sine law), the drift displaces row y by slip*p(y)/delta_q with slip0 = angle = 2*pi/steps, '
                  'positions measured from the zero bin of the (possibly shifted) axis; the resulting centroid map has determinant 1 and trace 2-theta*tan(theta); closure over a full period follows analytically and is not machine-checked',
-        'assumptions': [A_IDEAL, A_LIB, DROPS, 'tan/sin uninterpreted', 'equal cell sizes in q and p (same PhaseSpaceSize and GridSize for both axes in main)'],
+        'assumptions': [A_IDEAL, A_LIB, DROPS, 'tan/sin uninterpreted'],   # equal cell sizes in q and p: no longer assumed, obligation main#post.both_axes_span_PhaseSpaceSize (MainGrid)
         'uncovered': ['orbit closure after steps iterations (analytic consequence of the one-step matrix)', 'small-amplitude linearisation of the sinusoidal model'],
         'explanation': 'contracts of the RF and drift map builders, of the axis, and of main configuration arithmetic, plus matrix lemma',
         'technique': TECH,
@@ -211,7 +211,7 @@ PROPERTIES = {
         'technique': TECH,
     },
     'C05': {
-        'units': [mainloop.MainLoop, mainspec.MainConfig, mainspec.MainPhysics, mainspec.MainUnits, mainspec.MainFields, mainspec.MainWiring, mainspec.MapDispatch, io.ProgramOptionsGetters, sm.WakePotentialMapUpdate, ef.ElectricFieldScale, sm.RFCalcKick, sm.DriftMapCtor, sm.FokkerPlanckCtor, ef.WakePotential, sm.UpdateSM, sm.KickMapApply],
+        'units': [mainloop.MainLoop, mainspec.MainConfig, mainspec.MainPhysics, mainspec.MainGrid, mainspec.MainUnits, mainspec.MainFields, mainspec.MainWiring, mainspec.MapDispatch, io.ProgramOptionsGetters, sm.WakePotentialMapUpdate, ef.ElectricFieldScale, sm.RFCalcKick, sm.DriftMapCtor, sm.FokkerPlanckCtor, ef.WakePotential, sm.UpdateSM, sm.KickMapApply],
         'lemmas': [sm.lemmas_fp, sm.lemmas_c03],
         'level': 'other',
         'claim': 'the ingredients of the stationary (Haissinski) relation are proved on the code: within one step the wake potential is computed from the projection left by the previous step, then wake kick, RF kick, drift, '
